@@ -120,6 +120,12 @@ func gen(transports []string) func(t *rapid.T) Case {
 				c.Err.Details = append(c.Err.Details, detailGen(t))
 			}
 			c.Err.Meta = metaGen(t, "meta")
+			// how the coded error reaches the library: as itself, wrapped,
+			// joined with another error; optionally it wraps a context error
+			c.Err.Wrap = rapid.SampledFrom([]string{"", "", "", "w", "join", "w2"}).Draw(t, "wrap")
+			if rapid.IntRange(0, 5).Draw(t, "cause") == 0 {
+				c.Err.Cause = rapid.SampledFrom([]string{"canceled", "deadline"}).Draw(t, "causeKind")
+			}
 		}
 		if c.Cfg.Kind == prog.Server || c.Cfg.Kind == prog.Bidi {
 			c.K = rapid.IntRange(0, 5).Draw(t, "k")
@@ -255,8 +261,8 @@ func check(tt *testing.T, c Case) (pbt.Info, error) {
 	if res.Err.Code != wantCode {
 		return info, fmt.Errorf("%s: code: handler returned %d, client received %d (%s)", where, wantCode, res.Err.Code, res.Err)
 	}
-	if res.Err.Msg != c.Err.Msg {
-		return info, fmt.Errorf("%s: message: handler returned %q, client received %q", where, c.Err.Msg, res.Err.Msg)
+	if res.Err.Msg != c.Err.WireMsg() {
+		return info, fmt.Errorf("%s: message: handler returned %q, client received %q", where, c.Err.WireMsg(), res.Err.Msg)
 	}
 	if len(res.Received) != c.K {
 		return info, fmt.Errorf("%s: handler sent %d messages before the error, client received %d", where, c.K, len(res.Received))
@@ -306,8 +312,8 @@ func check(tt *testing.T, c Case) (pbt.Info, error) {
 		if err != nil {
 			return info, fmt.Errorf("%s: reference decoder rejects the error response: %v", where, err)
 		}
-		if dec.Status.Code != wantCode || dec.Status.Message != c.Err.Msg {
-			return info, fmt.Errorf("%s: reference decoder reads code %d message %q from the wire, handler returned %d %q", where, dec.Status.Code, dec.Status.Message, wantCode, c.Err.Msg)
+		if dec.Status.Code != wantCode || dec.Status.Message != c.Err.WireMsg() {
+			return info, fmt.Errorf("%s: reference decoder reads code %d message %q from the wire, handler returned %d %q", where, dec.Status.Code, dec.Status.Message, wantCode, c.Err.WireMsg())
 		}
 		if !c.Err.Plain && len(dec.Status.Details) != len(c.Err.Details) {
 			return info, fmt.Errorf("%s: reference decoder reads %d details from the wire, handler attached %d", where, len(dec.Status.Details), len(c.Err.Details))
